@@ -25,7 +25,15 @@ LR = [(l, r) for l in HY for r in HY]
 LRLR = [(a, b, c, d) for a in HY for b in HY for c in HY for d in HY]
 
 TEXTS = ["a", " ", "\n ", " a ", "a\n", "{", "%}", "}}", " -", "- "]
-TEXTS_THOROUGH = TEXTS + ["\t\r\n", " a \n"]
+# Edge whitespace beyond space/newline: every ASCII whitespace and control separator, NEL, NBSP, en/em/thin/
+# narrow/ideographic spaces, line/paragraph separators.  "All whitespace" (statement) = str.isspace().
+WS_TEXTS = [
+    " \t\r\n\x0b\x0c x \x0c\x0b\n\r\t ", "\x0b\x0c", "\x1c\x1d\x1e\x1f k \x1f\x1e\x1d\x1c", "\x85 j \x85",
+    "\u00a0g\u00a0", " \u2003h\u2002 ", "\u3000\u65e5\u672c\u8a9e\u3000", "\u2028i\u2029", "\u00a0\u2009\u202f",
+    "\u1680\u2000m\u200a\u205f", " \u00a0 n \u00a0 ",
+]
+assert all(t[0].isspace() and t[-1].isspace() for t in WS_TEXTS)
+TEXTS_THOROUGH = TEXTS + ["\t\r\n", " a \n"] + WS_TEXTS
 
 RAW_BODIES = [" {{ x }} ", "{% if %}", " ", "", "- x -", "\n{% comment %} {# #}\n", "\n b \n"]
 COMMENT_BODIES = [" {{ x }} ", "{% if %}", " ", "", "b", "{% raw %} {{ {% endraw %}",
@@ -209,6 +217,25 @@ def gen_cases(shard: Any, tier: str) -> Iterator[list[Any]]:
                 for before in FRAG_CTX:
                     for after in FRAG_CTX:
                         yield [x for x in (before, blk, after) if x is not None]
+    elif part == "ws":
+        # texts with non-trivial whitespace characters: all sequences of length <= 2 that contain one, and
+        # every markup / text / markup sandwich over the markup items of the 40-instance menu
+        _, _, shape = shard
+        ws = [T(t) for t in WS_TEXTS]
+        if shape == "seq2":
+            alpha = alphabet(envname, conf["texts"], conf["nbodies"])
+            for w in ws:
+                yield [w]
+                for other in alpha + ws:
+                    yield [w, other]
+                for other in alpha:
+                    yield [other, w]
+        else:
+            markup = [m for m in small_menu(envname, "40") if m[0] != "T"]
+            for a in markup:
+                for w in ws:
+                    for b in markup:
+                        yield [a, w, b]
     elif part == "littext":
         # with template comments off, "{# ... #}" is ordinary text
         frags = ["{# c #}", " {#- c -#} ", "#}", "{#"]
@@ -285,6 +312,20 @@ def diagnose(env: Any, envname: str, lex: Sequence[M.Lex], seq: Sequence[Any], g
         sig["closing_hyphen"] = "-" if seq[-1].ls else ""
         out.append((sig, f"the newline that ends the template (text {seq[-1].text!r}) is missing from the output"))
         return out
+    # a stripped edge that kept some of its whitespace characters?
+    runs_l = [x for x in seq if isinstance(x, M.Run) and (x.ls or x.rs)]
+    if 0 < len(runs_l) <= 3:
+        tables = {x.pos: M.partial_strip_alts(x) for x in runs_l}
+        for combo in itertools.product(*[list(tables[x.pos]) for x in runs_l]):
+            exp4, _ = M.expected(seq, text_alts={x.pos: {c} for x, c in zip(runs_l, combo)})
+            if got in exp4:
+                kept = "".join(a + b for x, c in zip(runs_l, combo) for a, b in [tables[x.pos][c]])
+                cls = sorted({"ascii" if ch in " \t\r\n\x0b\x0c" else "ascii-separator" if ord(ch) < 0x80
+                              else "non-ascii" for ch in kept})
+                out.append(({"clause": "strip-all-whitespace", "feature": "whitespace-left-at-stripped-edge",
+                             "kept_class": cls, "env": envname},
+                            f"whitespace {kept!r} survives at an edge that faces a hyphenated delimiter"))
+                return out
     out.append(({"clause": "output", "feature": "undiagnosed", "env": envname, "kinds": kinds_of(lex)},
                 "output differs from every acceptable output of the model"))
     return out
@@ -394,7 +435,10 @@ class C10(Check):
         "'%}' ...) are outside the domain and counted as ambiguous_source_excluded."
     )
     assumptions = [
-        "whitespace is what str.strip() removes; the alphabet uses space, newline (thorough: tab, CR)",
+        "'all whitespace' (statement; docs/syntax.md only says 'whitespace') is read as every character for which "
+        "str.isspace() is true, i.e. what str.strip() removes: ASCII space/tab/CR/LF/VT/FF, the separators "
+        "U+001C..1F, NEL, NBSP, U+1680, U+2000..200A, U+2028/2029, U+202F, U+205F, U+3000 are all enumerated at "
+        "text edges next to controlled delimiters",
         "raw's inner hyphens (raw -%} / {%- endraw) may or may not trim the raw body (statement is silent): both accepted",
         "a control-flow block whose content renders to whitespace only may render it or nothing "
         "(suppress_blank_control_flow_blocks is documented default behaviour): both accepted",
@@ -421,6 +465,10 @@ class C10(Check):
                                "unbalanced bodies ('{{', '{%', '{#', '#}', lone and paired doc/comment/raw tags, ...) x "
                                "16 (4) marker combinations x 4x4 contexts; cells the statement/docs do not fix are "
                                "excluded from the model, counted, and only compared across the two environments",
+            "whitespace_characters": f"{len(WS_TEXTS)} texts whose edges carry ASCII-control and non-ASCII whitespace: all "
+                                     "sequences of length <= 2 containing one (over the main alphabet) and every "
+                                     "markup/text/markup sandwich over the markup items of the 40-instance menu"
+                                     + ("; also part of the main alphabet" if tier != "quick" else ""),
             "tag_kinds_sweep": "assign, inline(+multi-line), liquid(+multi-line), echo, cycle x 4 markers x 13x13 "
                                "contexts; if/unless/for wraps x 16 markers x 12 inner x 5x5 contexts",
             "environments": list(ENVS),
@@ -444,6 +492,7 @@ class C10(Check):
                 sh.append(("kinds", envname, name))
             for kind in ("RAW", "COMMENT", "DOC") + (("SHORT",) if envname == "template_comments" else ()):
                 sh.append(("frag", envname, kind))
+            sh += [("ws", envname, "seq2"), ("ws", envname, "sandwich")]
         sh.append(("littext", "default"))
         return sh
 
